@@ -478,6 +478,29 @@ def object_scan(ctx, chk, facts, prog, file, elems):
                  file, None)
     else:
         chk.ok('C15.5', 'scan-range', sample={'entries examined': '0..39 (offsets 0, 4, .., 0x9c)'})
+    # the scan is made for the line being entered: after a call of find_current_line_sprites no store to LY follows within
+    # the same step of the caller (a scan made before `current_line` is updated selects the objects of the previous line -
+    # of line 153 for screen line 0)
+    ipl = absint.Interp(facts)
+    stale, ncall = None, 0
+    for cf, cbb, cline, _k in prog.callers(FN):
+        if cf not in prog.fns:
+            continue
+        ncall += 1
+        heads = set(ipl.loops_of(cf).keys())
+        t_ = prog.fns[cf]['blocks'][cbb]['term']
+        nxt = t_.get('target', -1)
+        if nxt is None or nxt < 0:
+            continue
+        after = set() if nxt in heads else prog.reachable_blocks(cf, nxt, avoid=heads)
+        for w in prog.field_stores(OW, 'current_line'):
+            if w[0] == cf and w[1] in after and w[4] in ('exact', 'addr_taken'):
+                stale = stale or ('%s (line %s) scans OAM and then stores LY at line %s: the scan saw the previous line\'s LY'
+                                  % (cf, cline, w[2]))
+    if stale or not ncall:
+        chk.fail('C15.5', 'scan-after-ly', stale or 'find_current_line_sprites is called from nowhere', file, None)
+    else:
+        chk.ok('C15.5', 'scan-after-ly', sample={'call sites': ncall, 'rule': 'no store to current_line after the scan within the step'})
     if limit_ok:
         chk.ok('C15.5', 'ten-per-line', sample={'guard': 'objects kept < 10'})
     else:
